@@ -769,3 +769,34 @@ Proof.
   split; [apply coherentb_coherent; vm_compute; reflexivity|].
   vm_compute. repeat split; reflexivity.
 Qed.
+
+(* ================================================================== exactly one difference *)
+Definition differ (x y : table) : Prop :=
+  (exists i j, get (mat x) i j <> get (mat y) i j) \/ oids x <> oids y \/ sids x <> sids y
+  \/ omd x <> omd y \/ smd x <> smd y \/ ttype x <> ttype y.
+
+Lemma differ_neq x y : differ x y -> x <> y.
+Proof.
+  intros D E. subst y. destruct D as [(i & j & H)|[H|[H|[H|[H|H]]]]]; apply H; reflexivity.
+Qed.
+
+Theorem one_change_lemma a b : coherent a -> coherent b -> differ (cont a) (cont b) ->
+  eq_impl a b = false /\ eq_impl b a = false /\ ne_impl a b = true /\ desc_impl a b <> 0%Z.
+Proof.
+  intros Ca Cb D. pose proof (differ_neq _ _ D) as N.
+  assert (E : eq_impl a b = false) by (apply unequal_content_lemma; assumption).
+  split; [exact E|]. split; [rewrite <- eq_sym_lemma by assumption; exact E|].
+  split; [unfold ne_impl; rewrite E; reflexivity|].
+  intros H. apply (ne_desc_lemma a b Ca Cb) in H. congruence.
+Qed.
+
+(* the same ids in another order are a difference *)
+Lemma swap_differs (l : list Z) i j : NoDup l -> i < length l -> j < length l -> i <> j ->
+  upd (upd l i (nth j l 0%Z)) j (nth i l 0%Z) <> l.
+Proof.
+  intros N Hi Hj Hij E.
+  assert (H : nth j (upd (upd l i (nth j l 0%Z)) j (nth i l 0%Z)) 0%Z = nth i l 0%Z)
+    by (apply nth_upd_eq; rewrite upd_length; exact Hj).
+  rewrite E in H. apply Hij. symmetry.
+  apply (proj1 (NoDup_nth l 0%Z) N); assumption.
+Qed.
